@@ -30,10 +30,17 @@ if "<!-- MODELMAP -->" in s and mt:
 rp = os.path.join(VERIF, "selftest", "model_mutation_report.json")
 if "<!-- MODELMUT -->" in s and os.path.exists(rp):
     rep = json.load(open(rp))
-    lines = ["summary: " + ", ".join(f"{k} {v}" for k, v in sorted(rep["summary"].items())), "",
-             "| file:line | operator | outcome | first proof that breaks | mutated line |", "|---|---|---|---|---|"]
+    lines = [f"{len(rep['mutants'])} mutants (seeds {rep.get('seeds')}): " + ", ".join(f"{k} {v}" for k, v in sorted(rep["summary"].items())), "",
+             "| file | killed | survived | ill-typed |", "|---|---|---|---|"]
+    files = sorted({r["file"] for r in rep["mutants"]})
+    for f in files:
+        rs = [r for r in rep["mutants"] if r["file"] == f]
+        lines.append(f"| {f} | {sum(r['outcome'] == 'killed' for r in rs)} | {sum(r['outcome'] == 'survived' for r in rs)} | {sum(r['outcome'] == 'ill-typed' for r in rs)} |")
+    lines += ["", "Survivors (the full list with the first proof each killed mutant breaks is in `selftest/model_mutation_report.json`):", "",
+              "| file:line | operator | mutated line |", "|---|---|---|"]
     for r in rep["mutants"]:
-        lines.append(f"| {r['file']}:{r['line']} | {r['op']} | {r['outcome']} | {(r.get('failing') or ['-'])[0].replace('Toodee.', '')} | `{r['text'][:100].replace('|', '/')}` |")
+        if r["outcome"] == "survived":
+            lines.append(f"| {r['file']}:{r['line']} | {r['op']} | `{r['text'][:110].replace('|', '/')}` |")
     s = re.sub(r"<!-- MODELMUT -->.*?<!-- /MODELMUT -->", lambda _: "<!-- MODELMUT -->\n" + "\n".join(lines) + "\n<!-- /MODELMUT -->", s, flags=re.S)
 open(p, "w").write(s)
 print(table)
